@@ -773,10 +773,28 @@ class Class(Node):
         # Exclude the root node's name
         return ComponentRef.from_tuple(tuple(reversed(names[:-1])))
 
+    def _is_within_placeholder(self) -> bool:
+        """
+        Is this an empty package, as created for the names in a "within" clause?
+        """
+        empty = Class(name=self.name, type="package")
+        return all(
+            value == empty.__dict__[key]
+            for key, value in self.__dict__.items()
+            if key not in ("classes", "parent")
+        )
+
     def _extend(self, other: "Class") -> None:
         for class_name in other.classes.keys():
             if class_name in self.classes.keys():
-                self.classes[class_name]._extend(other.classes[class_name])
+                mine, theirs = self.classes[class_name], other.classes[class_name]
+                if mine._is_within_placeholder() and not theirs._is_within_placeholder():
+                    # We only had a placeholder for the package of a "within" clause, and
+                    # now get the package's own definition (constants, imports, ...)
+                    for key, value in theirs.__dict__.items():
+                        if key not in ("classes", "parent"):
+                            mine.__dict__[key] = value
+                mine._extend(theirs)
             else:
                 self.classes[class_name] = other.classes[class_name]
 
